@@ -305,3 +305,10 @@ Proof.
   do 7 eexists. split; [vm_compute; reflexivity|].
   split; [reflexivity|]. split; [reflexivity|]. split; [reflexivity|]. split; reflexivity.
 Qed.
+
+(* the successor 3 of the interrupt-after node 2 of [wd_chain] is a pending input of the checkpoint of the
+   first call, with the input computed from the output of node 2; nothing but node 2 ran *)
+Lemma wd_chain_successor_pending : exists i c e,
+  seg_fresh (node_exec 1 [wd_chain] wd_chain) 0 wd_chain wd_x (env0 []) = (OInterrupted i c, [{| ev_key := 2; ev_in := wd_x; ev_abort := false; ev_skip := false |}], e) /\
+  ii_after i = [2] /\ cp_inputs c = [(3, VMap [(2, wd_x)])].
+Proof. do 3 eexists. split; [vm_compute; reflexivity|]. split; reflexivity. Qed.
